@@ -155,10 +155,11 @@ package table
 //@   invariant w != nil && w.err == nil && w.buf == buf && buf != nil && BufOwned[ref(buf)] && forall(Int(x), (old(BufOwned)[x] ==> (BufOwned[x] && BufC[x] == old(BufC)[x] && BufStore[x] == old(BufStore)[x])) && (BufOwned[x] ==> (old(BufOwned)[x] || x == ref(buf))), trig(BufOwned[x]), trig(old(BufOwned)[x]))
 //@   invariant BufC[ref(buf)] == IEnc[rangeindex + 1] && IEnc[0] == le64(i.DataBlock.Offset) + le64(i.DataBlock.Length)
 //
+//@ ghost BPrev Str
 //@ func table.Build -> ix, r
 //@ props C11 C12
 //@ requires dataBlockSize >= 0
-//@ assigns BufC, BufStore, BufOwned, DEnc, DLcp, IEnc
+//@ assigns BufC, BufStore, BufOwned, DEnc, DLcp, IEnc, BPrev
 //@ ensures r != nil ==> arrid(r) >= old(alloc)
 //@ ensures len(ix.Entries) >= 0 && (len(entries) > 0 ==> len(ix.Entries) >= 1)
 //@ ensures forall(Int(x), old(BufOwned)[x] ==> (BufOwned[x] && BufC[x] == old(BufC)[x] && BufStore[x] == old(BufStore)[x]), trig(BufOwned[x]), trig(old(BufOwned)[x]))
@@ -168,6 +169,16 @@ package table
 //@   invariant all(b, 0, len(dataBlocks), len(dataBlocks[b].Entries) > 0)
 //@   invariant rangeindex >= 0 ==> len(data.Entries) > 0
 //@   invariant currSize >= 0 && (currSize > 0 ==> len(data.Entries) > 0)
+// layout of a whole table (C11): the data blocks are written back to back from offset 0 and the
+// index entry of each block records exactly where its bytes are and the block's first and last key;
+// then the meta block, the index block and the footer follow, and the footer records where the meta
+// and index blocks are.
+//@ before_call (*bytes.Buffer).Write#0: ghost BPrev = BufC[ref(buf)]
+//@ after_call (*bytes.Buffer).Write#0: assert BufC[ref(buf)] == BPrev + string(dataBytes) && offset == len(BPrev) + len(dataBytes)
+//@ after_call append#3: assert result[len(result)-1].DataHandle.Offset == offset && offset == len(BufC[ref(buf)]) && result[len(result)-1].DataHandle.Length == len(dataBytes) && result[len(result)-1].StartKey == block.Entries[0].Key && result[len(result)-1].EndKey == block.Entries[len(block.Entries)-1].Key
+//@ before_call (*bytes.Buffer).Write#1: assert metaOffset == len(BufC[ref(buf)]) && indexBlock.DataBlock.Offset == 0 && indexBlock.DataBlock.Length == metaOffset
+//@ before_call (*bytes.Buffer).Write#2: assert indexOffset == len(BufC[ref(buf)]) && indexOffset == metaOffset + metaLength && metaLength == len(metaBytes) && indexLength == len(indexBytes)
+//@ before_call (*table.Footer).Encode#0: assert footer.MetaBlock.Offset == metaOffset && footer.MetaBlock.Length == metaLength && footer.IndexBlock.Offset == indexOffset && footer.IndexBlock.Length == indexLength && footer.Magic == _magic
 //@ define poolKept() = forall(Int(x), old(BufOwned)[x] ==> (BufOwned[x] && BufC[x] == old(BufC)[x] && BufStore[x] == old(BufStore)[x]), trig(BufOwned[x]), trig(old(BufOwned)[x]))
 //@ after_call (*table.Data).Encode#0: assert poolKept()
 //@ after_call (*bytes.Buffer).Write#0: assert poolKept()
@@ -176,6 +187,7 @@ package table
 //@   invariant (arrid(indexBlock.Entries) >= old(alloc) || cap(indexBlock.Entries) == 0)
 //@   invariant all(b, 0, len(dataBlocks), len(dataBlocks[b].Entries) > 0)
 //@   invariant len(indexBlock.Entries) == rangeindex + 1
+//@   invariant offset == len(BufC[ref(buf)]) && offset <= 9223372036854775807
 //
 // Data.Decode, one record at a time (C11): for every entry DE = (DKey, DVal, DTomb, DVer) and prefix length DL (ghost, arbitrary):
 // if the input at the position where an iteration starts holds the record of DE with stored prefix
